@@ -143,7 +143,13 @@ func parseStringList(input string, toUpper bool) []string {
 		trimmed := strings.TrimSpace(part)
 		if trimmed != "" {
 			if toUpper {
-				trimmed = strings.ToUpper(trimmed)
+				// Codes are ASCII: Unicode case mapping would turn "ımm" (dotless i) into "IMM"
+				trimmed = strings.Map(func(r rune) rune {
+					if r >= 'a' && r <= 'z' {
+						return r - ('a' - 'A')
+					}
+					return r
+				}, trimmed)
 			}
 			result = append(result, trimmed)
 		}
